@@ -341,11 +341,42 @@ def judge_mutant(mspec, params, rec, ctx, must_name, mech, drop_param=None):
         rec.violation(f"{mech}:raise_exception-wrong-type:{type(e).__name__}", ctx, f"{type(e).__name__}: {str(e)[:200]}")
 
 
+def check_repeat(model, params, refs, rec, spec):
+    """The SAME model object validated several times: with a parameter missing, with the complete set, with another one
+    missing.  Each answer depends on the arguments of that call only."""
+    from glotaran.parameter import Parameters
+
+    labels = [r["label"] for r in refs if r["kind"] != "item"]
+    labels = list(dict.fromkeys(labels))[:3]
+    ctx = {"spec": json_spec(spec), "scenario": "one model object validated repeatedly"}
+    try:
+        for n, drop in enumerate(labels):
+            p = Parameters({q.label: q.copy() for q in params.all() if q.label != drop})
+            text, issues = issue_text(model, p)
+            rec.count("repeated_validations")
+            named = [s_ for s_ in issues if drop in s_]
+            other = [s_ for s_ in issues if not any(d in s_ for d in [drop])]
+            if not named:
+                rec.violation("repeat:missing-parameter-not-reported", ctx, f"call {2 * n + 1}: parameter {drop!r} removed, issues {issues[:4]}")
+                return
+            stale = [s_ for s_ in other if any(d in s_ for d in labels[:n])]
+            if stale:
+                rec.violation("repeat:issues-of-an-earlier-call-reported-again", ctx, f"call {2 * n + 1}: parameter {drop!r} removed, but issues also name parameters missing in EARLIER calls: {stale[:3]}")
+                return
+            text, issues = issue_text(model, params)
+            if issues or not model.valid(params):
+                rec.violation("repeat:valid-model-reported-invalid-after-an-invalid-call", ctx, f"call {2 * n + 2}: complete parameters, validate() says {text[:160]!r}")
+                return
+    except Exception as e:  # noqa
+        rec.violation(f"repeat:raises:{type(e).__name__}", ctx, f"{type(e).__name__}: {str(e)[:200]}")
+
+
 def run_spec(spec, rec, rng, full):
     out = check_valid(spec, rec, rng)
     if out is None:
         return 0, False
     model, params, refs = out
+    check_repeat(model, params, refs, rec, spec)
     n = 0
     kinds = {r["holder"] for r in refs}
     for r in refs:
